@@ -3,9 +3,10 @@ import common
 from common import Case
 
 TITLE = 'Protocol messages mean the same to both ends and framing always terminates'
-LEAN_TARGETS = ['BridgeVerif.Props.C19', 'BridgeVerif.Translated.NetHelpers']
-AUDIT_PROPS = ['C19', 'Translated.NetHelpers']
-REQUIRED = ['Translated.NetHelpers.nh_hand_to_str_translated',
+LEAN_TARGETS = ['BridgeVerif.Props.C19', 'BridgeVerif.Translated.NetHelpers', 'BridgeVerif.Translated.Messages']
+AUDIT_PROPS = ['C19', 'Translated.NetHelpers', 'Translated.Messages']
+REQUIRED = ['Translated.Messages.bid_message_round_trip', 'Translated.Messages.bid_message_variants', 'Translated.Messages.card_message_round_trip', 'Translated.Messages.board_header_round_trip', 'Translated.Messages.connection_line_read',
+            'Translated.NetHelpers.nh_hand_to_str_translated',
             'hand_msg_round_trip', 'bid_msg_round_trip', 'card_msg_round_trip', 'board_header_round_trip',
             'team_names_round_trip', 'connect_round_trip', 'framing_round_trip', 'chunking_irrelevant',
             'reader_stops_at_eof', 'reader_spins_at_eof_old']
@@ -30,7 +31,7 @@ RANKS = '23456789TJQKA'
 
 
 # areas of the pure core whose TRANSLATION (Generated/PyCore.lean) is run next to the real code in this check
-TRANSLATED_AREAS = ('net',)
+TRANSLATED_AREAS = ('net', 'msg')
 
 def hx(s):
     b = s if isinstance(s, bytes) else s.encode('utf-8')
